@@ -34,10 +34,14 @@ pub open spec fn wants_syntax(s: State, config: &Config) -> bool {
 /// an `ansi_term` painted string: its text and its style
 pub uninterp spec fn at_text<'a>(s: ANSIString<'a>) -> Seq<char>;
 pub uninterp spec fn at_style<'a>(s: ANSIString<'a>) -> AtStyle;
+/// the text types `Style::paint` is called with here (`String`, `&str`)
+pub trait PaintInput { spec fn as_text(&self) -> Seq<char>; }
+impl PaintInput for &str { open spec fn as_text(&self) -> Seq<char> { (*self)@ } }
+impl PaintInput for String { open spec fn as_text(&self) -> Seq<char> { self@ } }
 impl Style {
-    /// delta's `Style::paint` = `self.ansi_term_style.paint(input)` (generic over the text type; here for an owned String)
+    /// delta's `Style::paint` = `self.ansi_term_style.paint(input)` (generic over the text type)
     #[verifier::external_body]
-    pub fn paint<'a>(self, input: String) -> (r: ANSIString<'a>) ensures at_text(r) == input@, at_style(r) == self.ansi_term_style { unimplemented!() }
+    pub fn paint<'a, T: PaintInput>(self, input: T) -> (r: ANSIString<'a>) ensures at_text(r) == input.as_text(), at_style(r) == self.ansi_term_style { unimplemented!() }
 }
 /// the marker that is put back in front of a line: in a combined diff (outside conflict regions) always the line's own marker
 /// columns; otherwise, when markers are kept, `-`, a blank or `+` by the kind of the line - each in the style of that kind
@@ -54,6 +58,24 @@ pub open spec fn kept_marker(s: State, config: &Config) -> Option<(AtStyle, Seq<
 }
 //@ fn src/paint.rs painted_prefix
 //@| ensures (match r { Some(x) => kept_marker(state, config) == Some((at_style(x), at_text(x))), None => kept_marker(state, config) is None }),  // @C01,C02:a.kept.marker.is.the.lines.own.marker.in.the.style.of.its.kind.removed.unchanged.or.added
+
+// ---- side_by_side.rs paint_minus_or_plus_panel_line: the marker that is kept in a panel
+//@ include prelude/minusplus.rs
+/// when markers are kept, a panel row begins with `-` on the left and `+` on the right, each in the style of its side; a
+/// continuation row of a wrapped line begins with a blank in the style of its line
+pub open spec fn kept_panel_marker(keep: bool, side: PanelSide, s: State, config: &Config) -> Option<(AtStyle, Seq<char>)> {
+    if !keep { None }
+    else if s is HunkPlusWrapped { Some((config.plus_style.ansi_term_style, " "@)) }
+    else if s is HunkMinusWrapped { Some((config.minus_style.ansi_term_style, " "@)) }
+    else if side == Left { Some((config.minus_style.ansi_term_style, "-"@)) }
+    else { Some((config.plus_style.ansi_term_style, "+"@)) }
+}
+//@ region src/features/side_by_side.rs paint_minus_or_plus_panel_line
+//@sig pub fn sbs_kept_marker_region<'a>(config: &Config, panel_side: PanelSide, state: &State) -> (r: Option<ANSIString<'a>>)
+//@from <<<let painted_prefix = match (config.keep_plus_minus_markers, panel_side, state) {>>>
+//@until <<<let (line, line_is_empty) = Painter::paint_line(>>>
+//@tail painted_prefix
+//@| ensures (match r { Some(x) => kept_panel_marker(config.keep_plus_minus_markers, panel_side, *state, config) == Some((at_style(x), at_text(x))), None => kept_panel_marker(config.keep_plus_minus_markers, panel_side, *state, config) is None }),  // @C02,C07:a.kept.marker.in.a.panel.is.minus.on.the.left.plus.on.the.right.and.a.blank.on.the.continuation.rows.of.a.wrapped.line
 
 } // verus!
 fn main() {}
